@@ -1082,6 +1082,39 @@ def h_arith(I, st, callee, target, args, ctx):
 def h_eq(I, st, callee, target, args, ctx):
     a, b = deref(I, st, args[0]), deref(I, st, args[1])
     ne = callee["def"].endswith("::ne")
+    from .interp import VApp
+    if isinstance(a, VApp) or isinstance(b, VApp):
+        # a leaf-decoded value against a constant (`talker_id != TalkerId::Unknown`): one case per path of the leaf
+        app, other, = (a, b) if isinstance(a, VApp) else (b, a)
+        if isinstance(other, VApp):
+            raise Unanalysable("PartialEq on two leaf applications")
+        discrs, atoms = I.app_discrs(st, app)
+        if discrs and any(x is None for x in atoms) and isinstance(other, VAdt) and not other.fields:
+            # decoded from bytes: compare the opaque variant number (no split on the bytes)
+            adt = I.f.adts.get(other.adt)
+            od = adt["variants"][other.variant]["discr"] if adt and adt["variants"] else other.variant
+            if od not in discrs:
+                c = False
+            elif len(discrs) == 1:
+                c = True
+            else:
+                c = ("in", I.appvar_atom(st, app, discrs), IntSet.of(od))
+            return [(st, VBool(negate(c) if ne else c))]
+        out = []
+        for s2, val in I.app_cases(st, app):
+            if isinstance(val, VAdt) and isinstance(other, VAdt) and val.adt == other.adt:
+                if val.variant != other.variant:
+                    c = False
+                elif not val.fields:
+                    c = True
+                else:
+                    c = True
+                    for x, y in zip(val.fields, other.fields):
+                        c = simplify(("and", c, eq_cond(I, s2, x, y)))
+            else:
+                c = eq_cond(I, s2, val, other)
+            out.append((s2, VBool(negate(c) if ne else c)))
+        return out
     c = eq_cond(I, st, a, b)
     return [(st, VBool(negate(c) if ne else c))]
 
@@ -2354,3 +2387,50 @@ def h_range_inclusive_new(I, st, callee, target, args, ctx):
     if not (isinstance(lo, VInt) and isinstance(hi, VInt)):
         raise Unanalysable("RangeInclusive::new(%r, %r)" % (lo, hi))
     return [(st, VAdt("core::ops::range::Range", 0, (lo, VInt(hi.w, hi.s, lin=lin_of(st, hi) + 1))))]
+
+
+def _const_bytes(I, st, v):
+    if isinstance(v, (VRef, VBox)):
+        v = deref(I, st, v)
+    if isinstance(v, VSlice) and isinstance(v.buf, tuple) and v.buf[0] == "cbytes" and v.start.is_const() and v.len.is_const():
+        return v.buf[1][v.start.c:v.start.c + v.len.c]
+    if isinstance(v, VStr) and v.term[0] == "cstr":
+        return v.term[1]
+    if isinstance(v, VList) and all(isinstance(x, VInt) and lin_of(st, x).is_const() for x in v.items):
+        return bytes(lin_of(st, x).c for x in v.items)
+    raise Unanalysable("constant byte pattern expected, got %r" % (v,))
+
+
+@ext("core:[T]::strip_prefix", "core:[T]::starts_with")
+def h_strip_prefix(I, st, callee, target, args, ctx):
+    sl = deref(I, st, args[0])
+    if not isinstance(sl, VSlice):
+        raise Unanalysable("strip_prefix on %r" % (sl,))
+    pre = _const_bytes(I, st, args[1])
+    n = len(pre)
+    strip = target["def"].endswith("strip_prefix")
+    yes = (lambda s: mk_some(VSlice(sl.buf, sl.start + n, sl.len - n))) if strip else (lambda s: VBool(True))
+    no = NONE if strip else VBool(False)
+    if n == 0:
+        return [(st, yes(st))]
+    long_enough = decide_le0(st, -sl.len + n, "strip_prefix")     # len >= n
+    if not long_enough:
+        return [(st, no)]
+    out = []
+    if n == 1:
+        # exact on both sides: the first byte is / is not the pattern byte
+        cur = st.aset(("byte", sl.buf, sl.start.key()))
+        s1 = st.copy()
+        if _constrain_byte(s1, sl.buf, sl.start, IntSet.of(pre[0])):
+            out.append((s1, yes(s1)))
+        s2 = st.copy()
+        if _constrain_byte(s2, sl.buf, sl.start, IntSet.range(0, 255).minus(IntSet.of(pre[0]))):
+            out.append((s2, no))
+        return out
+    bkey = sl.buf if not isinstance(sl.buf, tuple) else tuple(sl.buf)
+    ok, nok = _fork(st, ("prefix", bkey, sl.start.key(), pre))
+    if ok is not None and all(_constrain_byte(ok, sl.buf, sl.start + i, IntSet.of(b)) for i, b in enumerate(pre)):
+        out.append((ok, yes(ok)))
+    if nok is not None:
+        out.append((nok, no))
+    return out
